@@ -331,8 +331,10 @@ def _payload_reads(ctx, prog, eff, reg, f):
             if d and d[0]["ret"].rstrip().endswith("*"):
                 return [NULL, PTR("ret:" + str(cal))]
             return None
+        # helpers are not interpreted in place here: a read inside a helper is judged in the helper and, when the
+        # helper has no test of its own, again from each of its callers (the escalation below)
         ex = absint.Explorer(prog, effects=eff, inline=lambda n, d: n in inline_names, on_load=on_load,
-                             on_unknown_call=unk, loop_bound=2, max_paths=60000, max_depth=4)
+                             on_unknown_call=unk, loop_bound=2, max_paths=60000, max_depth=4, auto_inline=False)
         ps = ex.sym("ps", 0, 2 ** 33)
         store = {("EMU", F("emu", "ev")): PTR("EV"), ("EV", F("emu_ev", "payload")): PTR("PL"),
                  ("EV", F("emu_ev", "payload_size")): ps, ("EMU", F("emu", "thread")): PTR("TH"),
